@@ -23,3 +23,18 @@ for i in range(31):
                     params={'P:i': i}, solvers=Z3NEW, timeout=120, validate=(i == 0), validate_n=5))
     OBLS.append(Obl('C13.4b[%d]' % i, H, 'obl_c13_jsub_pow4', 'B', 'jump(jump_subsequence[%d]) == jump(jump_subsequence[%d])^4 for all 2^160 states' % (i + 1, i),
                     params={'P:i': i}, solvers=Z3NEW, timeout=120, validate=(i == 0), validate_n=5))
+
+SK = 'C13/skip.cc'
+CUT_INNER = {'_ZN9celeritas15XorwowRngEngine4jumpERKNS_5ArrayIjLm5EEE': 'stub_jump_record'}
+CUT_OUTER = {'_ZN9celeritas15XorwowRngEngine4jumpEyRKNS_5ArrayINS1_IjLm5EEELm32EEE': 'stub_jump_count'}
+ST_IN = ['XorwowRngEngine::jump(JumpPoly) body replaced by a recorder of (table, row): row semantics are obligations C13.2-C13.4']
+ST_OUT = ['XorwowRngEngine::jump(count, table) body replaced by a recorder of (count, table): the digit loop is obligation C13.5']
+OBLS += [
+    Obl('C13.5', SK, 'obl_c13_discard_digits', 'A', 'discard(n): applied table rows satisfy sum times_i*4^i == n for every 64-bit n, no subsequence row; '
+        'Weyl value += (uint32)n*362437', unwind=40, precut=CUT_INNER, timeout=900, stubs=ST_IN, bounds='32 base-4 digits (complete for 64-bit n)'),
+    Obl('C13.9', SK, 'obl_c13_init_calls', 'B', 'operator=(Initializer): skips exactly `subsequence` subsequences then `offset` draws (all 64 bits each); '
+        'post-state independent of the previous state', precut=CUT_OUTER, timeout=120, stubs=ST_OUT),
+    Obl('C13.10', SK, 'obl_c13_reseed_calls', 'B', 'reseed_rng: slot i starts at subsequence event*size+i for every 64-bit event id, independent of the stream id',
+        precut=CUT_OUTER, timeout=120, stubs=ST_OUT, bounds='2 slots'),
+    Obl('C13.10r', SK, 'obl_c13_reseed', 'A', 'reseed_rng through the real digit loop (row recorder)', unwind=40, precut=CUT_INNER, timeout=1800, stubs=ST_IN, tier='thorough'),
+]
